@@ -61,12 +61,16 @@ NOTES.update({
 
 class TrxDataRxCb(Contract):
     """trx_data_rx_cb(ofd, what), ofd->data = the trx instance.  With D[0..n) the datagram read() returns (any content, n <= 512):
-      n <= 0                                       returns n, nothing indicated
-      n < 8                                        -EINVAL, nothing indicated
-      D[0] >> 4 != 0                               -ENOTSUP, nothing indicated
-      n - 8 not in {148, 150, 444, 446}            -EINVAL, nothing indicated
-      FN (octets 1..4, big endian) >= 2715648      -EINVAL, nothing indicated
-      otherwise  returns 0; exactly one BURST.ind with tn, fn, toa256, burst length and soft bits as spec.trxd_layout.dec("rx"),
+      n <= 0                                       nothing indicated
+      n < 8                                        nothing indicated
+      D[0] >> 4 != 0                               nothing indicated
+      n - 8 not in {148, 150, 444, 446}            nothing indicated
+      FN (octets 1..4, big endian) >= 2715648      nothing indicated
+      (the value returned is NOT part of the contract: the statement is silent about it and the only caller, libosmocore's select loop
+       `ufd->cb(ufd, flags);` in select.c, ignores it.  The first version of this contract transcribed the present codes n / -EINVAL /
+       -ENOTSUP / 0: clauses read_error_returned, short_pdu_rejected, other_version_rejected, bad_burst_length_rejected,
+       illegal_fn_rejected, accepted_returns_0 - dropped)
+      otherwise  exactly one BURST.ind with tn, fn, toa256, burst length and soft bits as spec.trxd_layout.dec("rx"),
                  rssi = -(int8_t)D[5]; then exactly one RTS.ind with the same tn and fn' = (fn + fn_advance) mod 2715648."""
     name = "trx_data_rx_cb"
     inline = ("osmo_load32be",)
@@ -137,14 +141,7 @@ class TrxDataRxCb(Contract):
         P = n - 8
         fn = d["fn"]
         ok = z3.And(n >= 8, octet(0) / 16 == 0, L.in_set(P, ACCEPTED_BURST_PARTS), fn < HYPERFRAME)
-        posts = [("read_error_returned", z3.Implies(n <= 0, ret == n)),
-                 ("short_pdu_rejected", z3.Implies(z3.And(n > 0, n < 8), ret == -self.EINVAL)),
-                 ("other_version_rejected", z3.Implies(z3.And(n >= 8, octet(0) / 16 != 0), ret == -self.ENOTSUP)),
-                 ("bad_burst_length_rejected", z3.Implies(z3.And(n >= 8, octet(0) / 16 == 0, z3.Not(L.in_set(P, ACCEPTED_BURST_PARTS))), ret == -self.EINVAL)),
-                 ("illegal_fn_rejected", z3.Implies(z3.And(n >= 8, octet(0) / 16 == 0, L.in_set(P, ACCEPTED_BURST_PARTS), fn >= HYPERFRAME),
-                                                    ret == -self.EINVAL)),
-                 ("accepted_returns_0", z3.Implies(ok, ret == 0)),
-                 ("indications_iff_accepted", z3.If(ok, z3.BoolVal(len(inds) == 1 and len(rts) == 1), z3.BoolVal(len(inds) == 0 and len(rts) == 0)))]
+        posts = [("indications_iff_accepted", z3.If(ok, z3.BoolVal(len(inds) == 1 and len(rts) == 1), z3.BoolVal(len(inds) == 0 and len(rts) == 0)))]
         if len(inds) == 1:
             bi = inds[0]
             posts += [("ind.tn", bi["tn"] == d["tn"]), ("ind.fn", bi["fn"] == fn), ("ind.toa256", bi["toa256"] == d["toa256"]),
@@ -182,9 +179,12 @@ class _TxView:
 
 
 class BurstReq(Contract):
-    """trx_if_handle_phyif_burst_req(trx, br): tn <= 7, burst valid for burst_len <= 506 octets
+    """trx_if_handle_phyif_burst_req(trx, br) for the burst requests trxcon's scheduler produces (the statement's domain: tn <= 7,
+       fn < 2715648, burst_len in {0, 148, 444}, burst valid for burst_len octets; what the function does with anything else - send it,
+       refuse it - is free)
        ==> exactly one datagram sent on the DATA socket: spec.trxd_layout.enc of (ver 0, tn, fn, pwr, hard bits), 6 + burst_len octets;
-           returns 0"""
+           the result is negative only when the socket did not take the whole datagram (the statement is silent about the value and no
+           caller in the tree uses it: trxcon_phyif_handle_burst_req just passes it on; was: returns 0)"""
     name = "trx_if_handle_phyif_burst_req"
     inline = ("osmo_store32be",)
     externals = dict(libc.EXTERNALS)
@@ -208,16 +208,19 @@ class BurstReq(Contract):
 
     def requires(self, c):
         v = c.view_pre
-        return [("tn_range", v.get(c.a.br, "tn") <= 7), ("burst_fits_buffer", v.get(c.a.br, "burst_len") <= self.BUF - 6)]
+        bl = v.get(c.a.br, "burst_len")
+        return [("tn_range", v.get(c.a.br, "tn") <= 7), ("fn_below_hyperframe", v.get(c.a.br, "fn") < HYPERFRAME),
+                ("burst_len_as_the_scheduler_produces", L.in_set(bl, (0, 148, 444))), ("burst_fits_buffer", bl <= self.BUF - 6)]
 
     def ensures(self, c, old, new, ret):
         br = c.a.br
         tn, fn, pwr, blen = (old.get(br, f) for f in ("tn", "fn", "pwr", "burst_len"))
         sent = new.ghost("sent", [])
-        posts = [("returns_0", ret == 0), ("exactly_one_datagram", z3.BoolVal(len(sent) == 1))]
+        posts = [("exactly_one_datagram", z3.BoolVal(len(sent) == 1))]
         if len(sent) != 1:
             return posts
         s = sent[0]
+        posts.append(("negative_only_when_the_socket_did_not_take_it", z3.Implies(ret < 0, s["rc"] != s["len"])))
         bits = old.cell(c.burst)
         length, octet = L.enc(_TxView(tn, fn, pwr, blen), False, lambda i: z3.Select(bits, i))
         posts.append(("sent_on_data_socket", s["fd"] == old.get(c.a.trx, "trx_ofd_data.fd")))
